@@ -38,20 +38,21 @@ type leakRes struct {
 }
 
 type leakArgs struct {
-	Files          map[string]json.RawMessage `json:"files"`        // relative file name → tagged tree
-	ConfigFiles    []string                   `json:"config_files"` // compose files given to the loader, in order
-	Env            map[string]string          `json:"env"`
-	Cores          map[string]string          `json:"cores"` // variable → alphanumeric core of its value
-	RawFiles       map[string]string          `json:"raw_files,omitempty"` // files written as they are (env files of an include)
-	IncEnv         map[string]string          `json:"inc_env,omitempty"`   // what the include's env file (env_file: or .env of its project directory) defines
-	IncCores       map[string]string          `json:"inc_cores,omitempty"` // variable → core of its value in the include's env file
-	PName          string                     `json:"pname"`
-	Secrets        []leakRes                  `json:"secrets"`
-	Configs        []leakRes                  `json:"configs"`
-	SkipValidation bool                       `json:"skip_validation,omitempty"`
-	SkipConsistency bool                      `json:"skip_consistency,omitempty"`
-	Malformed      bool                       `json:"malformed,omitempty"`
-	Opts           *loadOpts                  `json:"opts,omitempty"` // round 6: loader options that change what later stages see
+	Files           map[string]json.RawMessage `json:"files"`        // relative file name → tagged tree
+	ConfigFiles     []string                   `json:"config_files"` // compose files given to the loader, in order
+	Env             map[string]string          `json:"env"`
+	Cores           map[string]string          `json:"cores"`               // variable → alphanumeric core of its value
+	RawFiles        map[string]string          `json:"raw_files,omitempty"` // files written as they are (env files of an include)
+	IncEnv          map[string]string          `json:"inc_env,omitempty"`   // what the include's env file (env_file: or .env of its project directory) defines
+	IncCores        map[string]string          `json:"inc_cores,omitempty"` // variable → core of its value in the include's env file
+	PName           string                     `json:"pname"`
+	Secrets         []leakRes                  `json:"secrets"`
+	Configs         []leakRes                  `json:"configs"`
+	SkipValidation  bool                       `json:"skip_validation,omitempty"`
+	SkipConsistency bool                       `json:"skip_consistency,omitempty"`
+	Malformed       bool                       `json:"malformed,omitempty"`
+	Opts            *loadOpts                  `json:"opts,omitempty"` // round 6: loader options that change what later stages see
+	Pre             *preSpec                   `json:"pre,omitempty"`  // round 7: the compose files are handed over already parsed (types.ConfigFile.Config), with shared Go values
 }
 
 type leakFail struct {
@@ -288,7 +289,35 @@ func realLeak(raw json.RawMessage) any {
 	if err != nil {
 		return map[string]any{"bad": "materialize: " + err.Error()}
 	}
-	p, err := loader.LoadWithContext(context.Background(), req.Details(root), func(o *loader.Options) {
+	details := req.Details(root)
+	// round 7: the model as a program builds it — already parsed, one Go map / slice value placed at several positions
+	var callerDicts []map[string]any
+	var callerBefore []string
+	if a.Pre != nil {
+		for i, f := range a.ConfigFiles {
+			var d map[string]any
+			if err := yaml.Unmarshal([]byte(files[f]), &d); err != nil {
+				return map[string]any{"bad": "pre-parse: " + err.Error()}
+			}
+			if i == 0 {
+				if err := a.Pre.share(d); err != nil {
+					return map[string]any{"bad": "pre-parse: " + err.Error()}
+				}
+			}
+			details.ConfigFiles[i].Config = d
+			callerDicts = append(callerDicts, d)
+			callerBefore = append(callerBefore, dumpTree(d))
+		}
+	}
+	callerUnchanged := func() (string, bool) {
+		for i, d := range callerDicts {
+			if after := dumpTree(d); after != callerBefore[i] {
+				return fmt.Sprintf("the caller's parsed model of %s was modified by the load: before %s, after %s", a.ConfigFiles[i], callerBefore[i], after), false
+			}
+		}
+		return "", true
+	}
+	p, err := loader.LoadWithContext(context.Background(), details, func(o *loader.Options) {
 		o.SkipValidation = a.SkipValidation
 		o.SkipConsistencyCheck = a.SkipConsistency
 		o.ResolvePaths = true
@@ -310,6 +339,9 @@ func realLeak(raw json.RawMessage) any {
 					return map[string]any{"ok": map[string]any{"fails": []leakFail{{"leak:error-message", fmt.Sprintf("the load error quotes the value of %q (include env file): %s", v, core.ScrubErr(err, root))}}}}
 				}
 			}
+		}
+		if what, ok := callerUnchanged(); !ok && !a.Malformed {
+			return map[string]any{"ok": map[string]any{"fails": inPlaceKeys(&a, []leakFail{{"mutated:caller-model", what}})}}
 		}
 		return map[string]any{"err": "rejected", "class": classifyLoadErr(err.Error()), "text": core.ScrubErr(err, root)}
 	}
@@ -338,7 +370,7 @@ func realLeak(raw json.RawMessage) any {
 		return "", false, ""
 	}
 	// what was generated, by variable
-	kindOfVar := map[string]string{} // var → secret | config
+	kindOfVar := map[string]string{}  // var → secret | config
 	nSecretsOfVar := map[string]int{} // scope:var → number of secrets carrying that value
 	for _, s := range a.Secrets {
 		if s.Kind == "environment" {
@@ -548,6 +580,12 @@ func realLeak(raw json.RawMessage) any {
 			add("mutated:derive", "deriving / rendering derived projects modified the project")
 		}
 	}
+	// 3. (round 7) the caller's parsed model is the caller's: neither the load nor anything after it writes into it
+	// (no carrier key, no name, no content).  Checked last: a leak it causes is reported under the leak's own key.
+	if what, ok := callerUnchanged(); !ok {
+		add("mutated:caller-model", "%s", what)
+		fails = inPlaceKeys(&a, fails)
+	}
 	if fails == nil {
 		fails = []leakFail{}
 	}
@@ -716,4 +754,96 @@ func registerC20Oracle() {
 			return nil
 		},
 	})
+}
+
+// ---------------------------------------------------------------- round 7: models handed over already parsed
+
+// preAlias places the Go value found at From (a mapping or a sequence of the parsed first compose file) at every path
+// of To as well — the same map / slice value, not a copy.  Wrap puts it inside a one-element sequence at the target.
+type preAlias struct {
+	From []string   `json:"from"`
+	To   [][]string `json:"to"`
+	Wrap bool       `json:"wrap,omitempty"`
+}
+
+type preSpec struct {
+	Aliases []preAlias `json:"aliases"`
+}
+
+func (s *preSpec) share(d map[string]any) error {
+	for _, al := range s.Aliases {
+		v, ok := lookupPath(d, al.From...)
+		if !ok {
+			continue // the layout moved that section to another file
+		}
+		switch v.(type) {
+		case map[string]any, []any:
+		default:
+			return fmt.Errorf("alias source %v is a %T", al.From, v)
+		}
+		for _, to := range al.To {
+			m := d
+			for _, k := range to[:len(to)-1] {
+				next, ok := m[k].(map[string]any)
+				if !ok {
+					if _, exists := m[k]; exists {
+						return fmt.Errorf("alias target %v crosses a %T", to, m[k])
+					}
+					next = map[string]any{}
+					m[k] = next
+				}
+				m = next
+			}
+			if al.Wrap {
+				m[to[len(to)-1]] = []any{v}
+			} else {
+				m[to[len(to)-1]] = v
+			}
+		}
+	}
+	return nil
+}
+
+// dumpTree is a deterministic text of a parsed model (encoding/json sorts the keys; shared values are written at every place).
+func dumpTree(d map[string]any) string {
+	b, err := json.Marshal(d)
+	if err != nil {
+		return "unencodable: " + err.Error()
+	}
+	return string(b)
+}
+
+// Recorded finding (round 7): with SkipInterpolation nothing copies a model handed over already parsed — the loader
+// works in place on the caller's ConfigFile.Config.  Only for that combination (pre-parsed ∧ SkipInterpolation ∧ the
+// caller's model was in fact written to) the failures get the finding's two stable keys: a value found in a rendering,
+// and the mutation itself.  With interpolation on (seed C20-9) the keys stay the unlisted `leak:…` / `mutated:caller-model`.
+const (
+	keyInPlaceLeak        = "leak:preparsed-in-place:skip-interpolation"
+	keyInPlaceMutated     = "input-mutated:preparsed:skip-interpolation"
+	keyInPlaceUnavailable = "secret-value-unavailable:preparsed-in-place:skip-interpolation"
+)
+
+func inPlaceKeys(a *leakArgs, fails []leakFail) []leakFail {
+	if a.Pre == nil || a.Opts == nil || !a.Opts.SkipInterpolation {
+		return fails
+	}
+	var out []leakFail
+	seen := map[string]bool{}
+	for _, f := range fails {
+		switch {
+		case f.Key == "mutated:caller-model":
+			f.Key = keyInPlaceMutated
+		case f.Key == "secret-value-unavailable":
+			// two secrets defined by one map: the decoder hook of the first consumes the carrier of both
+			f.Key = keyInPlaceUnavailable
+		case strings.HasPrefix(f.Key, "leak:"):
+			f.What = f.Key + ": " + f.What
+			f.Key = keyInPlaceLeak
+		}
+		if !seen[f.Key] {
+			seen[f.Key] = true
+			out = append(out, f)
+		}
+	}
+	return out
 }
